@@ -128,7 +128,7 @@ def plan(tier, seed):
     rnd = random.Random(seed * 7919 + 12)
     fam = c12_family(tier == "quick")
     sysg = [g for g in corpus.systematic(tier) if usable(g)]
-    want = 30 if tier == "quick" else 170
+    want = 24 if tier == "quick" else 150
     rnd.shuffle(sysg)
     # keep every template represented
     seen, first, rest = set(), [], []
@@ -137,8 +137,8 @@ def plan(tier, seed):
         (first if key not in seen else rest).append(g)
         seen.add(key)
     sysg = (first + rest)[:want]
-    rg = [g for g in corpus.random_grammars(seed, 10 if tier == "quick" else 60, 0) if usable(g)]
-    rg += [g for g in corpus.random_grammars(seed + 7919, 6 if tier == "quick" else 25, 0, classical_only=True) if usable(g)]
+    rg = [g for g in corpus.random_grammars(seed, 8 if tier == "quick" else 50, 0) if usable(g)]
+    rg += [g for g in corpus.random_grammars(seed + 7919, 4 if tier == "quick" else 20, 0, classical_only=True) if usable(g)]
     grams = fam + sysg + rg
     for i, g in enumerate(grams):
         g.gid = i
@@ -445,7 +445,9 @@ def run_chunk(common, ch, maxlen):
 def run(ctx):
     t0 = time.time()
     ctx.proofs("Properties_C12")
+    t1 = time.time()
     common = prepare_common()
+    t2 = time.time()
     grams = plan(ctx.tier, ctx.seed)
     maxlen = 4 if ctx.tier == "quick" else 5
     per_tu = 6 if ctx.tier == "quick" else 10
@@ -472,7 +474,7 @@ def run(ctx):
         viol += R["violations"]
         for what, case, impl, model in R["diffs"][:20]:
             ctx.diff(what, case, impl=impl, model=model)
-    viol.sort(key=lambda v: (len(v[2]["input"]), len(v[2]["grammar"]), v[0]))
+    viol.sort(key=lambda v: (0 if v[0] in (SIG_STALE, SIG_LOOK) else 1, len(v[2]["input"]), len(v[2]["grammar"]), v[0]))
     seen = {}
     for sig, what, rp in viol:
         # one report per failing class: signature without the input for unlisted ones keeps the minimal input
@@ -490,7 +492,8 @@ def run(ctx):
                    "discard_empty::on<...> >, hash subsets with transformer mixes} x all inputs over {a,b,c} up to length %d plus deep extra inputs; "
                    "distinct = distinct (grammar, selector, non-trivial tree)" % maxlen,
               samples=samples[:6], exhaustive=False, grammars=len(grams), trees=trees, runs_aborted_by_exception=aborted, result_histogram=hist,
-              selectors=["all", "named", "mix"] + HSELS, wall_corpus_s=round(time.time() - t0, 1))
+              selectors=["all", "named", "mix"] + HSELS,
+              wall_proofs_s=round(t1 - t0, 1), wall_model_build_s=round(t2 - t1, 1), wall_corpus_s=round(time.time() - t2, 1))
 
 
 class _ReplayGram:
